@@ -42,6 +42,10 @@ type FileSpec struct {
 	// is not UTF-8, "failwriter": the same File into a writer that refuses
 	// data after a few bytes). BuildFile ignores it.
 	Prelude string `json:"failing_encode_before,omitempty"`
+	// Stale: the File carries header CRC, data size and file CRC values of
+	// an earlier life (as a File returned by Decode, or encoded before and
+	// edited since, does); Encode documents that it updates them.
+	Stale bool `json:"stale_header_values,omitempty"`
 }
 
 // FileOpts steers GenFile.
@@ -285,7 +289,7 @@ func GenFile(d D, o FileOpts) *FileSpec {
 	if ft < 0 {
 		ft = int(prof.FileTypes[d.Int(0, len(prof.FileTypes)-1, "ftype")])
 	}
-	fs := &FileSpec{Type: ft, HdrCRC: d.Bool("hcrc"), Proto: 0x20, BigEndian: d.Bool("be")}
+	fs := &FileSpec{Type: ft, HdrCRC: d.Bool("hcrc"), Proto: 0x20, BigEndian: d.Bool("be"), Stale: d.Int(0, 3, "stale") == 0}
 	if d.Chance(25, "v10") {
 		fs.Proto = 0x10
 	}
@@ -393,6 +397,11 @@ func BuildFile(fs *FileSpec) (*fit.File, error) {
 	id := idv.Interface().(fit.FileIdMsg)
 	id.Type = fit.FileType(fs.Type)
 	f.FileId = id
+	if fs.Stale {
+		f.Header.CRC = 0x5AA5
+		f.Header.DataSize = 0x00C0FFEE
+		f.CRC = 0xA55A
+	}
 	c, err := prof.Container(f)
 	if err != nil {
 		return nil, err
